@@ -655,6 +655,9 @@ func (c *rcComp) Run(args []string) string {
 	if (len(args) == 3 || len(args) == 4) && args[0] == "new" && args[1] == "pxr" {
 		return c.pxrRun(args) // a Poll in flight across a second Subscribe, then Close (rc_pxr.go)
 	}
+	if len(args) == 2 && args[0] == "new" && args[1] == "rs2" {
+		return c.rs2Run() // a second Subscribe on one ReconnectClient after a cancelled first one, then Close (rc_rs2.go)
+	}
 	if len(args) == 4 && args[0] == "new" && args[1] == "gf" {
 		return c.gfRun(args) // client.NewImpl = getFirst over several client types (rc_gf.go)
 	}
@@ -1296,6 +1299,7 @@ func (c *rcComp) Exhaustive(tier string) [][]string {
 	}
 	out = append(out, gfExhaustive(tier)...) // getFirst over several client types (rc_gf.go)
 	out = append(out, rpExhaustive(tier)...) // Close while Poll calls are in flight (rc_poll.go)
+	out = append(out, []string{"new rs2", "ret", "mon"})
 	for _, k := range []int{1, 2, 3, 6, 17} { // a Poll in flight across a second Subscribe, then Close (rc_pxr.go)
 		out = append(out, []string{"new pxr " + strconv.Itoa(k), "ret", "mon"})
 		for _, w := range []string{"mid", "before", "none", "after"} {
